@@ -648,15 +648,29 @@ def distribution(c):
     return d
 
 
+def _impl_list(impl_obs):
+    """The combination list inside an observation ["ok", [["ok", list], len]] (None if absent)."""
+    try:
+        if impl_obs[0] == "ok" and impl_obs[1][0][0] == "ok":
+            return impl_obs[1][0][1]
+    except (IndexError, TypeError):
+        pass
+    return None
+
+
 def finding_id(c, impl_obs, kind):
     k = c["kind"]
-    if k == "product":
+    lst = _impl_list(impl_obs)
+    if k == "product" and lst is not None:
         ops = [c["r"], *c["others"]]
-        if any(not o["items"] for o in ops):
+        # a non-empty product although one operand has no items (hence no combinations)
+        if lst and any(not o["items"] for o in ops):
             return "product-empty-operand-neutral"
+        # the first operand has dims=None, a later one has dims: its grouping is ignored
         if c["r"]["dims"] is None and any(o["dims"] is not None for o in c["others"]):
             return "product-loses-zip"
-    if k in ("filter", "filterm"):
+    if k in ("filter", "filterm") and lst:
+        # combinations out of a sweep (without derivers) that has an empty value list
         sw = _sweeps_of(c)
         if any(r["ders"] is None and any(len(v) == 0 for _, v in r["items"]) for r in sw):
             return "filtered-ignores-empty-dimension"
